@@ -6,8 +6,10 @@
      per class  c : its Python bases, [lc_asked] = every interface asked for by a class-level
                     declaration call since the last *only* form, [lc_kept] = those of them that
                     were not redundant when they were made, [lc_inherit] = no *only* form so far,
-                    [lc_oasked] = the interfaces declared on the class OBJECT (directlyProvides /
-                    provider / alsoProvides / noLongerProvides on the class);
+                    [lc_oasked] / [lc_okept] = the interfaces declared on the class OBJECT
+                    (directlyProvides / provider / alsoProvides / noLongerProvides on the class) and
+                    those of them not redundant when made — for a class object "implied by its
+                    class" means implied by what its METACLASS implements, [lc_meta] (fixed);
      per object o : its class, and [lo_asked] / [lo_kept] likewise for the object-level calls.
 
    impl(c) = declared(c) ∪ (if inherit(c) then ⋃ impl(b), b a base of c): [impl_lo] with
@@ -27,7 +29,8 @@ From ZI Require Import Lib.Util.
 From ZI Require Export Model.DeclOps.
 
 Record lcls := mkLC { lc_bases : list cls; lc_asked : list iface; lc_kept : list iface;
-                      lc_inherit : bool; lc_oasked : list iface }.
+                      lc_inherit : bool; lc_oasked : list iface; lc_okept : list iface;
+                      lc_meta : list iface }.
 Record lobj := mkLO { lo_cls : cls; lo_live : bool; lo_asked : list iface; lo_kept : list iface }.
 Record ledger := mkL { lcs : list lcls; los : list lobj }.
 
@@ -66,14 +69,14 @@ Definition l_declare (g : igraph) (L : ledger) (c : cls) (l : list iface) : ledg
   match nth_error (lcs L) c with
   | None => L
   | Some r => lset_cls L c (mkLC (lc_bases r) (lc_asked r ++ l) (lc_kept r ++ fresh_now g L c l)
-                                 (lc_inherit r) (lc_oasked r))
+                                 (lc_inherit r) (lc_oasked r) (lc_okept r) (lc_meta r))
   end.
 
 (* implementer_only / classImplementsOnly: replaces everything, stops inheritance *)
 Definition l_only (L : ledger) (c : cls) (l : list iface) : ledger :=
   match nth_error (lcs L) c with
   | None => L
-  | Some r => lset_cls L c (mkLC (lc_bases r) l l false (lc_oasked r))
+  | Some r => lset_cls L c (mkLC (lc_bases r) l l false (lc_oasked r) (lc_okept r) (lc_meta r))
   end.
 
 (* an object-level declaration of the net set: [asked] is asked for, [cand] is what may be kept *)
@@ -89,16 +92,19 @@ Definition l_object (g : igraph) (L : ledger) (t : target)
                end
   | TCls c => match nth_error (lcs L) c with
               | Some r => lset_cls L c (mkLC (lc_bases r) (lc_asked r) (lc_kept r) (lc_inherit r)
-                                             (fa (lc_oasked r)))
+                                             (fa (lc_oasked r))
+                                             (filter (fun x => negb (mem_nat x (closure g (lc_meta r)))) (fk (lc_okept r)))
+                                             (lc_meta r))
               | None => L
               end
   end.
 
 Definition lstep (g : igraph) (L : ledger) (o : op) : ledger :=
   match o with
-  | NewClass bs =>
+  | NewClass bs m =>
       let n := length (lcs L) in
-      mkL (lcs L ++ [mkLC (filter (fun b => Nat.ltb b n) bs) [] [] true []]) (los L)
+      mkL (lcs L ++ [mkLC (filter (fun b => Nat.ltb b n) bs) [] [] true [] []
+                          (match m with Some l => l | None => [] end)]) (los L)
   | NewInstance c =>
       if Nat.ltb c (length (lcs L)) then mkL (lcs L) (los L ++ [mkLO c true [] []]) else L
   | DropInstance o =>
@@ -128,7 +134,7 @@ Definition lo_direct (L : ledger) (t : target) : list iface :=
                | Some r => lo_kept r ++ impl_lo L (lo_cls r)
                | None => []
                end
-  | TCls c => match nth_error (lcs L) c with Some r => lc_oasked r | None => [] end
+  | TCls c => match nth_error (lcs L) c with Some r => lc_okept r ++ lc_meta r | None => [] end
   end.
 Definition hi_direct (L : ledger) (t : target) : list iface :=
   match t with
@@ -136,7 +142,7 @@ Definition hi_direct (L : ledger) (t : target) : list iface :=
                | Some r => lo_asked r ++ impl_hi L (lo_cls r)
                | None => []
                end
-  | TCls c => match nth_error (lcs L) c with Some r => lc_oasked r | None => [] end
+  | TCls c => match nth_error (lcs L) c with Some r => lc_oasked r ++ lc_meta r | None => [] end
   end.
 
 Definition lo_provided (g : igraph) (L : ledger) (t : target) := closure g (lo_direct L t).
@@ -151,7 +157,7 @@ Definition admissible (lo hi a : list iface) : Prop := incl lo a /\ incl a hi.
 Definition lo_dpb (L : ledger) (t : target) : list iface :=
   match t with
   | TInst o => match nth_error (los L) o with Some r => lo_kept r | None => [] end
-  | TCls c => match nth_error (lcs L) c with Some r => lc_oasked r | None => [] end
+  | TCls c => match nth_error (lcs L) c with Some r => lc_okept r | None => [] end
   end.
 Definition hi_dpb (L : ledger) (t : target) : list iface :=
   match t with
